@@ -1,6 +1,6 @@
 /-
   PINS of property C16: the decision tokens of every item the property is anchored in
-  (properties.jsonl `anchors` + tools/anchor_extra.json), as they were in /repo at 770977e when the
+  (properties.jsonl `anchors` + tools/anchor_extra.json), as they were in /repo at 097d707 when the
   model was validated against the source.  Written by tools/pin_anchors.py; the right-hand sides are
   compared by the kernel with lean/Chrono/Extracted/Anchors.lean, which tools/extractors/anchors.py
   regenerates from /repo's working tree on every check.  A theorem that fails here means: anchored
